@@ -194,6 +194,7 @@ def execute(scn, L):
                         kind, attr), {'op': op, 'stored': r.get('stored')})
             else:
                 nrej += 1
+                out.probe('assignment_rejected')
 
                 if valid:
                     out.probe('valid_value_rejected')
@@ -214,6 +215,8 @@ def execute(scn, L):
                         kind, invalid[0]), {'op': op})
             elif unknown or invalid:
                 nrej += 1
+                out.probe('ctor_attr_rejected:' + ('unknown' if unknown
+                                                   else 'invalid'))
                 out.states.add('%s|ctor-rejected|%s' % (
                     kind, 'unknown' if unknown else 'invalid'))
         elif name in ('eq', 'ne') and r['outcome'] == 'ok':
@@ -231,6 +234,8 @@ def execute(scn, L):
 
             if not se:
                 nchanged += 1
+
+            out.probe('equality_probe:' + ('equal' if se else 'different'))
 
             out.states.add('%s|%s' % (name, se))
         elif name in ('eq', 'ne') and r['outcome'] == 'raise':
